@@ -689,6 +689,134 @@ impl Gen {
     }
 }
 
+// ---------------------------------------------------------------------------------------------
+// Undeliverable commits: a lock over a value type whose deserializer refuses some values. A commit of
+// such a value cannot reach the owner; it must not be confirmed, and the value all later requests see
+// is the last confirmed one ("committed writes are never lost", read = latest committed value).
+// ---------------------------------------------------------------------------------------------
+const POISON: u64 = 1 << 40;
+
+#[derive(Clone, Debug, serde::Serialize)]
+struct PVal(u64);
+
+impl<'de> serde::Deserialize<'de> for PVal {
+    fn deserialize<D: serde::Deserializer<'de>>(d: D) -> Result<Self, D::Error> {
+        let v = <u64 as serde::Deserialize>::deserialize(d)?;
+        if v >= POISON {
+            Err(<D::Error as serde::de::Error>::custom("undeliverable value"))
+        } else {
+            Ok(PVal(v))
+        }
+    }
+}
+
+type PLock = RwLock<PVal>;
+
+async fn poison_case(mut rng: Rng) {
+    trace::tr("mode burst".into());
+    trace::tr("s conns 1".into());
+    let owner = Owner::new(PVal(0));
+    let (a, b) = tokio::io::duplex(1 << 16);
+    let (a_rd, a_wr) = tokio::io::split(a);
+    let (b_rd, b_wr) = tokio::io::split(b);
+    let cfg = remoc::Cfg::default();
+    let fa = remoc::Connect::io::<_, _, PLock, PLock, remoc::codec::Default>(cfg.clone(), a_rd, a_wr);
+    let fb = remoc::Connect::io::<_, _, PLock, PLock, remoc::codec::Default>(cfg, b_rd, b_wr);
+    let (ra, rb) = tokio::join!(fa, fb);
+    let (conn_a, mut tx_a, _rx_a) = ra.expect("connect a");
+    let (conn_b, _tx_b, mut rx_b) = rb.expect("connect b");
+    let ta = tokio::spawn(async move {
+        let _ = conn_a.await;
+    });
+    let tb = tokio::spawn(async move {
+        let _ = conn_b.await;
+    });
+    let mut handles: Vec<PLock> = Vec::new();
+    trace::tr("s handle local".into());
+    handles.push(owner.rw_lock());
+    trace::tr("handle 0 cache=0 ep=0".into());
+    let nremote = rng.range(1, 3) as usize;
+    for i in 0..nremote {
+        trace::tr("s handle remote 1".into());
+        tx_a.send(owner.rw_lock()).await.expect("send lock");
+        handles.push(rx_b.recv().await.expect("recv lock").expect("lock"));
+        trace::tr(format!("handle {} cache={} ep=1", i + 1, i + 1));
+    }
+    let limit = Duration::from_secs(3600);
+    let rounds = rng.range(2, 6);
+    let poison_round = rng.below(rounds);
+    let mut k = 0u32;
+    let mut hung = false;
+    for round in 0..rounds {
+        if hung {
+            break;
+        }
+        // a write through a remote handle (the value travels over the connection)
+        k += 1;
+        let h = rng.range(1, nremote as u64) as usize;
+        let poison = round == poison_round || rng.chance(1, 4);
+        let nv = if poison { POISON + k as u64 } else { 100 + k as u64 };
+        trace::tr(format!("s write {k} {h} 0"));
+        trace::tr(format!("e wstart {k}"));
+        match tokio::time::timeout(limit, handles[h].write()).await {
+            Ok(Ok(mut g)) => {
+                trace::tr(format!("e wacq {k} {}", g.0));
+                yields(rng.below(3) as u32).await;
+                *g = PVal(nv);
+                trace::tr(format!("s commit {k} 0"));
+                if poison {
+                    trace::tr(format!("undeliverable {k}"));
+                }
+                trace::tr(format!("e wcommit {k} {nv}"));
+                match tokio::time::timeout(limit, g.commit()).await {
+                    Ok(Ok(())) => trace::tr(format!("e wdone {k} ok")),
+                    Ok(Err(_)) => trace::tr(format!("e wdone {k} err")),
+                    Err(_) => {
+                        trace::tr(format!("hang {k} write committing"));
+                        hung = true;
+                    }
+                }
+            }
+            Ok(Err(_)) => trace::tr(format!("e werr {k}")),
+            Err(_) => {
+                trace::tr(format!("hang {k} write pend"));
+                hung = true;
+            }
+        }
+        if hung {
+            break;
+        }
+        // reads on some handles: each must see the last confirmed value
+        for _ in 0..rng.range(1, 4) {
+            k += 1;
+            let h = rng.below(nremote as u64 + 1) as usize;
+            trace::tr(format!("s read {k} {h} 0"));
+            trace::tr(format!("e rstart {k}"));
+            match tokio::time::timeout(limit, handles[h].read()).await {
+                Ok(Ok(g)) => {
+                    trace::tr(format!("e racq {k} {}", g.0));
+                    yields(rng.below(2) as u32).await;
+                    trace::tr(format!("s rel {k} 0"));
+                    trace::tr(format!("e rrel {k} {}", g.0));
+                    drop(g);
+                }
+                Ok(Err(_)) => trace::tr(format!("e rerr {k}")),
+                Err(_) => {
+                    trace::tr(format!("hang {k} read pend"));
+                    hung = true;
+                    break;
+                }
+            }
+        }
+    }
+    trace::tr("s end".into());
+    trace::tr("end".into());
+    drop(handles);
+    drop(owner);
+    ta.abort();
+    tb.abort();
+}
+
 fn main() {
     let args: Vec<String> = std::env::args().collect();
     std::panic::set_hook(Box::new(|info| {
@@ -730,6 +858,7 @@ fn main() {
                     let c2 = cell.clone();
                     run_rt(gname == "race", async move {
                         match gname.as_str() {
+                            "poison" => poison_case(gen_.rng.fork()).await,
                             "exact" => {
                                 let n = gen_.rng.range(8, 40) as usize;
                                 gen_.exact(n, false).await
